@@ -4,6 +4,7 @@
 (*   cls : per-row classification against the target row (see Ops)         *)
 (*   t   : 1-based index of the target row (0 = range beyond trajectory)   *)
 (*   b,e : 1-based indices of the reported begin / end rows (0 = none)     *)
+(*   at  : 1-based index of the row reported as the target row             *)
 (*   err : "none" | "ArithmeticError" | other exception name               *)
 (*   grp, hrank : calls with equal grp share trajectory and range; hrank   *)
 (*         orders them by target height (monotonicity clause)              *)
@@ -20,6 +21,8 @@ Clauses(r, p) ==
   (IF r.t = 0 /\ r.err # "ArithmeticError" THEN {"C16.BeyondNotError"} ELSE {}) \cup
   (IF r.t > 0 /\ r.err # "none" THEN {"C16.UnexpectedError"} ELSE {}) \cup
   (IF r.t > 0 /\ r.err = "none" /\ ~AdmissibleC(r.cls, r.t, r.b, r.e) THEN {"C16.NotAdmissible"} ELSE {}) \cup
+  \* the target row is the first row at or beyond the requested range (at = index of the row the result names)
+  (IF r.t > 0 /\ r.err = "none" /\ r.at # r.t THEN {"C16.WrongTargetRow"} ELSE {}) \cup
   (IF r.t > 0 /\ r.err = "none" /\ p.grp = r.grp /\ p.hrank <= r.hrank /\ (r.b > p.b \/ r.e < p.e)
    THEN {"C16.ShrinksWithHeight"} ELSE {})
 
